@@ -272,7 +272,7 @@ class LOutputScope(OutputScope):
         self._verified = False
         gen = None
         e = PSBTError("Invalid commitments")
-        if self.asset and self.asset_commitment:
+        if self.asset is not None and self.asset_commitment:
             # we can't verify asset
             if not self.asset_blinding_factor and not self.asset_proof:
                 raise e
@@ -290,7 +290,7 @@ class LOutputScope(OutputScope):
                 if not secp256k1.surjectionproof_verify(surj_proof, [gen_asset], gen):
                     raise e
 
-        if self.value and self.value_commitment:
+        if self.value is not None and self.value_commitment:
             if not gen or not (self.value_blinding_factor or self.value_proof):
                 raise e
             # we have blinding factor
